@@ -190,6 +190,8 @@ Section Fold.
   Definition set_uses st u := mkState (s_const st) (s_sym st) (s_dtype st) (s_shape st) u (s_next st) (s_inits st) (s_guard st).
   Definition set_next st k := mkState (s_const st) (s_sym st) (s_dtype st) (s_shape st) (s_uses st) k (s_inits st) (s_guard st).
   Definition set_inits st l := mkState (s_const st) (s_sym st) (s_dtype st) (s_shape st) (s_uses st) (s_next st) l (s_guard st).
+  (* the symbolic value map is keyed by ir.Value OBJECTS: the fresh value that replaces a folded output has no entry *)
+  Definition drop_sym st x := mkState (s_const st) (remove_key x (s_sym st)) (s_dtype st) (s_shape st) (s_uses st) (s_next st) (s_inits st) (s_guard st).
   (* replace_nodes_and_values: type / shape / const_value of the old value win when they are known *)
   Definition set_dtype_if_absent st x v := match assoc x (s_dtype st) with Some _ => st | None => set_dtype st x v end.
   Definition set_shape_if_absent st x v := match assoc x (s_shape st) with Some _ => st | None => set_shape st x v end.
@@ -772,8 +774,8 @@ Section Fold.
   (* ---- decisions *)
   Inductive decision :=
   | DKeep (r : reason) (st : state)
-  | DFoldInit (y : vname) (v : V)
-  | DFoldConst (y : vname) (v : V)
+  | DFoldInit (st : state) (y : vname) (v : V)     (* st: the state the evaluators left behind (their writes on ir.Value objects persist) *)
+  | DFoldConst (st : state) (y : vname) (v : V)
   | DNodes (st : state) (new_nodes : list node)
   | DInline (st : state) (new_nodes : list node) (moved : list vname)
   | DRaise.
@@ -824,7 +826,7 @@ Section Fold.
                   Z.ltb 0 (v_size v - removed)
                 else false in
               if too_large then DKeep RLargeOutput st
-              else if is_function then DFoldConst y v else DFoldInit y v
+              else if is_function then DFoldConst st y v else DFoldInit st y v
           | _, _ => DKeep RMultiOut st
           end
         end
@@ -958,15 +960,19 @@ Section Fold.
               | OutOfFuel => OutOfFuel
               | Stuck w => Stuck w
               end
-            | DFoldInit y v =>
+            | DFoldInit ste y v =>
+              (* ste = st1 + what the partial evaluators wrote before returning None (Identity: shape / type of the
+                 input and of the output); the new initializer value takes the old output's type / shape when known
+                 (replace_nodes_and_values) and has no symbolic value *)
               if strict && negb (disjointb [y] (fnames st0)) then Stuck "fold: the output name is already mentioned by a recorded fact" else
-              let st2 := set_dtype_if_absent (set_shape_if_absent (set_const (del_node_uses st1 n) y v) y (map DInt (v_dims v))) y (v_dtype v) in
+              let st2 := set_dtype_if_absent (set_shape_if_absent (set_const (del_node_uses (drop_sym ste y) n) y v) y (map DInt (v_dims v))) y (v_dtype v) in
               let st3 := clear_unused_initializers cfg (register_inits st2 [y]) (present (n_ins n)) in
               let c := mk "Constant" [] [y] [("value", attr_of_val v)] in
               continue st3 (inits ++ [y])%list (y :: bound) [c] [y] [y] rest [TFoldInit (n_op n) (node_id n)]
-            | DFoldConst y v =>
+            | DFoldConst ste y v =>
+              if strict && negb (disjointb [y] (fnames st0)) then Stuck "fold: the output name is already mentioned by a recorded fact" else
               let c := mk "Constant" [] [y] [("value", attr_of_val v)] in
-              continue (del_node_uses st1 n) inits bound [] [] [] (c :: rest) [TFoldConst (n_op n) (node_id n)]
+              continue (del_node_uses (drop_sym ste y) n) inits bound [] [] [] (c :: rest) [TFoldConst (n_op n) (node_id n)]
             | DNodes st2 news =>
               let st3 := fold_left add_node_uses news (del_node_uses st2 n) in
               let st4 := if is_function then st3 else clear_unused_initializers cfg st3 (present (n_ins n)) in
